@@ -704,6 +704,15 @@ def install(reg):
 
     reg.externals['random.Random.uniform'] = _uniform
 
+    @ext('random.randint')
+    def _randint(ex, st, args, kw, node):
+        a, b = ex.as_int(args[0], node), ex.as_int(args[1], node)
+        r = z3.Int(fresh_name('randint'))
+        st.assume(z3.And(a <= r, r <= b))
+        return [(st, VInt(r))]
+
+    reg.externals['random.Random.randint'] = _randint
+
     @ext('functools.partial')
     def _partial(ex, st, args, kw, node):
         return [(st, ex.register_callable(st, VFunc('partial', func=args[0], args=args[1:], kwargs=kw)))]
